@@ -152,4 +152,4 @@ def reduce_case(case):
         yield c
 
 
-SUBS = [Sub("options", check, strategy=strategy, reduce=reduce_case, examples={"quick": 700, "thorough": 30000})]
+SUBS = [Sub("options", check, strategy=strategy, reduce=reduce_case, examples={"quick": 700, "thorough": 12000})]
